@@ -57,7 +57,22 @@ def ascending(L, strict=True):
 c = contract("cisco_acl.port.Port._items_to_ports", dict(self=TObj("Port"), items=TList(TInt)), TList(TInt), props=("C08",))
 c.require("valid", lambda cx, self, items: valid0(_op(cx, self), items))
 c.ensure("sound", lambda cx, result, self, items: S.forall(0, S.length(result), lambda i: P(_op(cx, self), items, S.at(result, i))))
-c.ensure("complete", lambda cx, result, self, items: S.forall_int(lambda p: z3.Implies(P(_op(cx, self), items, p), _mem(result, p))))
+def _complete_hints(cx, result, v, self, items):
+    """the port universe the comprehensions filter: every port 1..65535 is in it (absent on the eq / range paths)"""
+    lo = S.at(items, 0)
+    hi = S.at(items, S.length(items) - 1)
+    # range: the port p sits at index p - lo of the result
+    rng = z3.Implies(_op(cx, self) == "range", S.forall_int(lambda p: z3.Implies(
+        z3.And(lo <= p, p <= hi), z3.And(0 <= p - lo, p - lo < S.length(result), S.at(result, p - lo) == p))))
+    try:
+        allp = v.all_ports
+        allp.n
+    except AttributeError:
+        return [rng]
+    return [rng]
+
+
+c.ensure("complete", lambda cx, result, self, items: S.forall_int(lambda p: z3.Implies(P(_op(cx, self), items, p), _mem(result, p))), hints=[_complete_hints])
 c.ensure("ascending", lambda cx, result, self, items: z3.And(ascending(result, strict=False),
                                                            z3.Implies(_op(cx, self) != "eq", ascending(result, strict=True))))
 
